@@ -86,6 +86,16 @@ CHECKS = {
         "The reference is the harness's own serialisation of the PCM the file was built from.",
         "DESIGN.md section 4 C07",
     ),
+    "C08": (
+        "metamorphic proptest (call-pattern invariance) + exhaustive 2/3-way split enumeration for small inputs",
+        "exploration",
+        "For fixed PCM and options every (front-end, sequence of write-call sizes) - empty writes, 1-unit writes, calls ending inside "
+        "a sample or PCM frame, trailing partial PCM frame or partial sample - must yield a file byte-identical to the one-call "
+        "encoding, twice in a row; all (first, second) call-size pairs up to 96 units are enumerated for 6 small inputs x 4 "
+        "front-ends; inputs shorter than one PCM frame must not panic. Both build profiles.",
+        "The canonical file is produced by the crate itself (one call through the sample front-end); C01/C02 cover its correctness.",
+        "DESIGN.md section 4 C08",
+    ),
 }
 
 NOT_YET = {}
